@@ -18,12 +18,15 @@ open Srtla.Hub
 
 /-- All invariants hold in every reachable state. -/
 theorem reachable_inv {s : Sys} (h : Reachable s) :
-    LockInv s ∧ IdInv s ∧ IssuedInv s ∧ MsgInv s := by
-  refine reach_induct (P := fun s => LockInv s ∧ IdInv s ∧ IssuedInv s ∧ MsgInv s) ?_ ?_ s h
+    LockInv s ∧ IdInv s ∧ IssuedInv s ∧ MsgInv s ∧ UnsubInv s ∧ PruneInv s := by
+  refine reach_induct
+    (P := fun s => LockInv s ∧ IdInv s ∧ IssuedInv s ∧ MsgInv s ∧ UnsubInv s ∧ PruneInv s) ?_ ?_ s h
   · intro caps progs
-    exact ⟨lockInv_init _ _, idInv_init _ _, issuedInv_init _ _, msgInv_init _ _⟩
-  · rintro s t s' ⟨h1, h2, h3, h4⟩ hst
-    exact ⟨lockInv_step h1 hst, idInv_step h2 hst, issuedInv_step h3 hst, msgInv_step h1 h2 h3 h4 hst⟩
+    exact ⟨lockInv_init _ _, idInv_init _ _, issuedInv_init _ _, msgInv_init _ _, unsubInv_init _ _,
+      pruneInv_init _ _⟩
+  · rintro s t s' ⟨h1, h2, h3, h4, h5, h6⟩ hst
+    exact ⟨lockInv_step h1 hst, idInv_step h2 hst, issuedInv_step h3 hst, msgInv_step h1 h2 h3 h4 hst,
+      unsubInv_step h2 h4 h5 hst, pruneInv_step h1 h2 h6 hst⟩
 
 /-! ## Publishing never waits on a subscriber -/
 
@@ -75,8 +78,156 @@ theorem C20_ids_unique {s : Sys} (hr : Reachable s) :
     s.issued.map (·.id) = List.range s.hub.nextId ∧
     (∀ e ∈ s.hub.entries, e ∈ s.issued) ∧
     (∀ a ∈ s.issued, ∀ b ∈ s.issued, a.id = b.id → a = b) := by
-  obtain ⟨_, hid, his, _⟩ := reachable_inv hr
+  obtain ⟨_, hid, his, _, _, _⟩ := reachable_inv hr
   have hnd : (s.issued.map (·.id)).Nodup := by rw [his.1]; exact List.nodup_range
   exact ⟨hid.1, hnd, his.1, his.2.1, fun a ha b hb hab => entry_eq_of_id hnd ha hb hab⟩
+
+/-! ## What a subscriber receives -/
+
+/-- Every message a receiver has taken out (`got`) or that is still queued for it carries an id that
+was issued, for exactly the topic that id subscribed to, on exactly the channel that id subscribed
+with, and it is the `(topic, payload)` of an entry of the publish log (nothing is invented). -/
+theorem C20_topic_only {s : Sys} (hr : Reachable s) (c : Nat) (m : Msg)
+    (hm : m ∈ (s.hub.chans c).got ∨ m ∈ (s.hub.chans c).queue) :
+    (∃ e ∈ s.issued, e.id = m.sub ∧ e.topic = m.topic ∧ e.chan = c) ∧
+    s.log[m.seq]? = some (m.topic, m.payload) := by
+  obtain ⟨_, _, _, hmi, _, _⟩ := reachable_inv hr
+  have hs : m ∈ (s.hub.chans c).sent := by
+    rcases hm with h | h
+    · exact (got_sublist_sent hmi c).subset h
+    · exact queue_subset_sent hmi c m h
+  exact hmi.2.1 c m hs
+
+/-- A subscription never sees an event on a channel other than its own, nor of another topic. -/
+theorem C20_topic_only_entry {s : Sys} (hr : Reachable s) (c : Nat) (m : Msg)
+    (hm : m ∈ (s.hub.chans c).got) (e : Entry) (he : e ∈ s.issued) (hid : e.id = m.sub) :
+    m.topic = e.topic ∧ c = e.chan := by
+  obtain ⟨⟨e', he', h1, h2, h3⟩, _⟩ := C20_topic_only hr c m (Or.inl hm)
+  have := (C20_ids_unique hr).2.2.2.2 e he e' he' (hid.trans h1.symm)
+  subst this
+  exact ⟨h2.symm, h3.symm⟩
+
+/-- **Order, at most once.**  For every subscription id `k` (issued record `e`), the sequence of
+events its connection has received under that id, oldest first, is a subsequence (`List.Sublist`:
+order kept, every log entry used at most once) of the lock-order publish log restricted to the
+subscription's topic. Its log positions are strictly increasing. -/
+theorem C20_order_at_most_once {s : Sys} (hr : Reachable s) (e : Entry) (he : e ∈ s.issued) :
+    let recvd := (s.hub.chans e.chan).got.filter (fun m => m.sub = e.id)
+    recvd.Pairwise (fun a b => a.seq < b.seq) ∧
+    (recvd.map (fun m => (m.topic, m.payload))).Sublist (s.log.filter (fun x => x.1 = e.topic)) := by
+  intro recvd
+  obtain ⟨_, _, _, hmi, _, _⟩ := reachable_inv hr
+  have hsub : recvd.Sublist (s.hub.chans e.chan).sent :=
+    List.Sublist.trans List.filter_sublist (got_sublist_sent hmi e.chan)
+  have hpw : recvd.Pairwise (fun a b => a.seq < b.seq) := by
+    have h0 : recvd.Pairwise (fun a b => a.sub = b.sub → a.seq < b.seq) := (hmi.2.2.1 e.chan).sublist hsub
+    refine List.Pairwise.imp_of_mem ?_ h0
+    intro a b ha hb hab
+    have ha' : a.sub = e.id := by simpa using (List.mem_filter.mp ha).2
+    have hb' : b.sub = e.id := by simpa using (List.mem_filter.mp hb).2
+    exact hab (ha'.trans hb'.symm)
+  refine ⟨hpw, ?_⟩
+  have hall : ∀ m ∈ recvd, m.topic = e.topic ∧ s.log[m.seq]? = some (m.topic, m.payload) := by
+    intro m hm
+    have hg : m ∈ (s.hub.chans e.chan).got := (List.mem_filter.mp hm).1
+    have hk : m.sub = e.id := by simpa using (List.mem_filter.mp hm).2
+    exact ⟨(C20_topic_only_entry hr e.chan m hg e he hk.symm).1, (C20_topic_only hr e.chan m (Or.inl hg)).2⟩
+  have h1 : (recvd.map (fun m => (m.topic, m.payload))).Sublist s.log :=
+    sublist_of_increasing _ s.log 0 recvd (fun m hm => ⟨Nat.zero_le _, by simpa using (hall m hm).2⟩) hpw
+  have h2 := h1.filter (fun x => decide (x.1 = e.topic))
+  rw [List.filter_eq_self.mpr] at h2
+  · exact h2
+  · intro x hx
+    obtain ⟨m, hm, rfl⟩ := List.mem_map.mp hx
+    simpa using (hall m hm).1
+
+/-! ## Nothing after unsubscribe -/
+
+/-- `s.unsubAt` holds `(k, n)` for every completed `unsubscribe(k)` that returned `true`, with `n` the
+length of the publish log at the moment it released the mutex; so publishes that take the mutex
+after that release have log positions `≥ n`.  In every later state: `k` is not in the table, no
+`subscribe` in flight can put it back, and NO message tagged `k` with log position `≥ n` was ever
+enqueued to any channel (`sent` is the complete enqueue history, so also none is queued or received).
+Events enqueued before the release may still be sitting in the channel and be read afterwards. -/
+theorem C20_nothing_after_unsubscribe {s : Sys} (hr : Reachable s) (k n : Nat)
+    (h : (k, n) ∈ s.unsubAt) :
+    (∀ e ∈ s.hub.entries, e.id ≠ k) ∧
+    (∀ t, (s.tasks t).pc.pendingId ≠ some k) ∧
+    (∀ c m, m ∈ (s.hub.chans c).sent → m.sub = k → m.seq < n) ∧
+    (∀ c m, m ∈ (s.hub.chans c).got ∨ m ∈ (s.hub.chans c).queue → m.sub = k → m.seq < n) := by
+  obtain ⟨_, _, _, hmi, hu, _⟩ := reachable_inv hr
+  obtain ⟨hd, _, hmsg⟩ := hu.2 k n h
+  refine ⟨hd.2, hd.1.2, hmsg, ?_⟩
+  intro c m hm
+  apply hmsg c m
+  rcases hm with h | h
+  · exact (got_sublist_sent hmi c).subset h
+  · exact queue_subset_sent hmi c m h
+
+/-- The record is really written: the release step of an `unsubscribe(k)` that found `k` appends
+`(k, log.length)`. -/
+example (s : Sys) (t k : Nat) (h : (s.tasks t).pc = .unsubDone k true) :
+    ∃ s', step s t = some s' ∧ s'.unsubAt = s.unsubAt ++ [(k, s.log.length)] ∧ s'.lock = none := by
+  refine ⟨_, by unfold step; rw [h], ?_, ?_⟩ <;> simp
+
+/-! ## Closed subscribers are pruned -/
+
+/-- What a publish is obliged to remove (ghost `must`, fixed when it first takes the mutex): the ids
+of exactly those table entries of its topic whose receiver is already gone at that moment. -/
+theorem C20_pruned_obligation (s : Sys) (t : Nat) (topic : Topic) (p : Nat) (rest : List Op)
+    (hpc : (s.tasks t).pc = .idle) (hprog : (s.tasks t).prog = .pub topic p :: rest)
+    (hfree : s.lock = none) :
+    ∃ s', step s t = some s' ∧
+      (s'.tasks t).pc = .pubIter topic p s.hub.pubs 0 [] (mustOf s.hub topic) ∧
+      ∀ k, k ∈ mustOf s.hub topic ↔
+        ∃ e ∈ s.hub.entries, (e.topic = topic ∧ (s.hub.chans e.chan).closed = true) ∧ e.id = k := by
+  have hst : step s t = some { s.setPc t (.pubIter topic p s.hub.pubs 0 [] (mustOf s.hub topic)) with
+      lock := some t
+      hub := { s.hub with pubs := s.hub.pubs + 1 }
+      log := s.log ++ [(topic, p)] } := by
+    unfold step; rw [hpc, hprog]; simp [hfree]
+  exact ⟨_, hst, by simp [Sys.setPc], fun k => mem_mustOf⟩
+
+/-- **Pruned.**  Once a `publish` has returned (its result `published must` is in the task's output),
+every id in its obligation list — every subscriber of its topic whose receiver was closed when the
+publish took the mutex — is absent from the table, and stays absent in every later state (no
+`subscribe` in flight holds that id, and ids are never reissued). -/
+theorem C20_pruned {s : Sys} (hr : Reachable s) (t : Nat) (must : List Nat)
+    (h : Obs.published must ∈ (s.tasks t).out) :
+    ∀ k ∈ must, (∀ e ∈ s.hub.entries, e.id ≠ k) ∧ (∀ t', (s.tasks t').pc.pendingId ≠ some k) ∧
+      k < s.hub.nextId := by
+  obtain ⟨_, _, _, _, _, hp⟩ := reachable_inv hr
+  intro k hk
+  have hd := hp.2.2.2 t must h k hk
+  exact ⟨hd.2, hd.1.2, hd.1.1⟩
+
+/-! ## The atomic-op layer (what is compared with the real code) is the small-step semantics -/
+
+/-- One call: from any state with the mutex free, running task `t` alone for some number of turns
+performs exactly the layer-1 operation `apply` on the hub (same hub state, same result appended to the
+task's output, nothing else touched). -/
+theorem C20_atomic_op_refines_small_step {s : Sys} {t : Nat} {op : Op} {rest : List Op}
+    (hlock : s.lock = none) (hpc : (s.tasks t).pc = .idle) (hprog : (s.tasks t).prog = op :: rest) :
+    ∃ n, (exec s (List.replicate n t)).hub = (apply s.hub op).1 ∧
+      (exec s (List.replicate n t)).lock = none ∧
+      ((exec s (List.replicate n t)).tasks t).pc = .idle ∧
+      ((exec s (List.replicate n t)).tasks t).prog = rest ∧
+      ((exec s (List.replicate n t)).tasks t).out = (s.tasks t).out ++ [(apply s.hub op).2] ∧
+      ∀ t', t' ≠ t → (exec s (List.replicate n t)).tasks t' = s.tasks t' := by
+  obtain ⟨n, h1, h2, h3, h4, h5, h6⟩ := atomic_refines hlock hpc hprog
+  exact ⟨n, h1, h2, h3, by rw [h4, hprog]; rfl, h5, h6⟩
+
+/-- Whole runs: for every list of calls `(task, op)` and all capacities there is a schedule under which
+the small-step semantics ends in exactly the hub state, and gives every task exactly the results,
+that layer 1 (`runCalls`, the function the compiled driver folds over the op lines) computes.  Hence
+every reachable-state theorem above applies to the states the correspondence compares with the
+real hub. -/
+theorem C20_atomic_model_is_small_step (caps : Nat → Nat) (calls : List (Nat × Op)) :
+    ∃ sched, Reachable (exec (init caps (progOf calls)) sched) ∧
+      (exec (init caps (progOf calls)) sched).hub = (runCalls (emptyHub caps) calls).1 ∧
+      ∀ t, ((exec (init caps (progOf calls)) sched).tasks t).out =
+        ((runCalls (emptyHub caps) calls).2.filter (fun o => o.1 = t)).map (·.2) := by
+  obtain ⟨sched, h1, h2⟩ := atomic_is_small_step caps calls
+  exact ⟨sched, ⟨caps, _, sched, rfl⟩, h1, h2⟩
 
 end Srtla.Props.C20
